@@ -21,6 +21,7 @@ import (
 
 func init() {
 	components["recv"] = recvComponent
+	replayers["recvpause"] = func(f []string) string { return runRecvPause(f[1]) }
 	replayers["recv"] = func(f []string) string { return runRecv(f[1], f[2]) }
 }
 
@@ -80,6 +81,7 @@ func (e *posErr) Error() string { return e.err.Error() }
 func (e *posErr) Unwrap() error { return e.err }
 
 type scriptReader struct {
+	stamps   []time.Time // time of every ReadPacketData call
 	syms     string
 	cancelAt int
 	cancel   context.CancelFunc
@@ -91,6 +93,7 @@ type scriptReader struct {
 func (s *scriptReader) ReadPacketData() ([]byte, *gopacket.CaptureInfo, error) {
 	s.mu.Lock()
 	defer s.mu.Unlock()
+	s.stamps = append(s.stamps, time.Now())
 	if s.cancelAt >= 0 && s.calls == s.cancelAt {
 		// cancellation observed at the loop head before read `cancelAt`: cancel, hand out a no-op
 		// (would-block) so that the loop comes round to its ctx check
@@ -128,6 +131,42 @@ func (p *scriptProc) ProcessPacketData(data []byte, _ *gopacket.CaptureInfo) err
 		return err
 	}
 	return nil
+}
+
+// runRecvPause: the longest time the real receive loop stays away from the socket after a read error
+// (time between the read that returned the error and the next read), over a script of isolated unknown
+// errors each followed by good frames.  A reply that arrives during the exit delay is only read in time
+// if this pause stays small (C16).
+func runRecvPause(syms string) string {
+	ctx, cancel := context.WithCancel(context.Background())
+	defer cancel()
+	errPos := map[error]int{}
+	rd := &scriptReader{syms: syms, cancelAt: -1, cancel: cancel, errPos: errPos}
+	pr := &scriptProc{errPos: errPos}
+	errc := packet.NewReceiver(rd, pr).ReceivePackets(ctx)
+	timeout := time.After(60 * time.Second)
+loop:
+	for {
+		select {
+		case _, ok := <-errc:
+			if !ok {
+				break loop
+			}
+		case <-timeout:
+			return "TIMEOUT"
+		}
+	}
+	rd.mu.Lock()
+	defer rd.mu.Unlock()
+	var max time.Duration
+	for i := 0; i+1 < len(rd.stamps) && i < len(syms); i++ {
+		if syms[i] != 'F' && syms[i] != 'P' {
+			if d := rd.stamps[i+1].Sub(rd.stamps[i]); d > max {
+				max = d
+			}
+		}
+	}
+	return fmt.Sprintf("maxpause_us=%d", max.Microseconds())
 }
 
 func runRecv(syms, cancelS string) string {
@@ -290,5 +329,11 @@ func recvComponent(r *hx.Run) {
 			class = ""
 		}
 		r.Case(class, "recv", syms, j.cancel, outs[i])
+	}
+	// pause after read errors: isolated unknown errors, each followed by frames, then one more error
+	for _, k := range []int{1, 4, 9, 12} {
+		syms := strings.Repeat("xFF", k) + "pFxF"
+		r.Count("pause")
+		r.Case("pause", "recvpause", syms, runRecvPause(syms))
 	}
 }
